@@ -231,6 +231,9 @@ def pointwise(E, opname, operands, node=None, out_dtype=None, compute_dtype=None
     # it - only results of all-contiguous operands are known to be contiguous (view() on the others is outside the model)
     if any(len(x.shape) > 1 and (x.strides is not None or x.attrs.get("layout_unknown")) and not x.attrs.get("known_contiguous") for _, x in tens):
         out.attrs["layout_unknown"] = True
+    # autograd history (A-TORCH-NN): the result of an op on a tensor that requires grad (or has history) has history, when recording is on
+    if E.ps.get("grad_enabled", True) and res_dtype in sym.FLOAT_DTYPES and any((x.requires_grad or x.attrs.get("grad_fn")) for _, x in tens):
+        out.attrs["grad_fn"] = True
     return out
 
 
@@ -409,6 +412,8 @@ def reduce_minmax(E, kind, t, dims, keepdim, node=None):
             elem = lambda idx: res_fn(list(idx))
         r = STensor(t.dtype, oshape, elem, device=t.device, fresh=True)
         r.attrs["reduction"] = info
+        if E.ps.get("grad_enabled", True) and (t.requires_grad or t.attrs.get("grad_fn")):
+            r.attrs["grad_fn"] = True
         return r
     n = E.fresh_name(f"{kind}_{t.name}")
     srt = E.alg.sort(t.dtype)
@@ -438,6 +443,8 @@ def reduce_minmax(E, kind, t, dims, keepdim, node=None):
         elem = lambda idx: res_fn(list(idx))
     r = STensor(t.dtype, oshape, elem, device=t.device, fresh=True)
     r.attrs["reduction"] = info
+    if E.ps.get("grad_enabled", True) and (t.requires_grad or t.attrs.get("grad_fn")):
+        r.attrs["grad_fn"] = True
     return r
 
 
